@@ -108,7 +108,21 @@ where
     (evs, ret)
 }
 
+static CUR: std::sync::OnceLock<String> = std::sync::OnceLock::new();
+
 pub fn run_seq(m: &Model, cfg: &RunCfg) -> (Vec<Value>, Value) {
+    // which instance is being solved, should the library never return (read by tools/check.py when the engine is killed)
+    if let Some(cur) = CUR.get() {
+        let _ = std::fs::write(cur, json!({"inst": m.to_json(), "cfg": {"dd": cfg.dd, "fringe": cfg.fringe, "width": cfg.width, "cache": cfg.cache}}).to_string());
+    }
+    let r = run_seq0(m, cfg);
+    if let Some(cur) = CUR.get() {
+        let _ = std::fs::remove_file(cur);
+    }
+    r
+}
+
+fn run_seq0(m: &Model, cfg: &RunCfg) -> (Vec<Value>, Value) {
     match (cfg.dd, cfg.cache) {
         ("lel", false) => go::<Mdd<St, { LAST_EXACT_LAYER }>, EmptyCache<St>>(m, cfg),
         ("lel", true) => go::<Mdd<St, { LAST_EXACT_LAYER }>, SimpleCache<St>>(m, cfg),
@@ -151,6 +165,8 @@ impl Out<'_> {
 fn main() {
     let args: Vec<String> = std::env::args().collect();
     let outp = arg(&args, "--out").expect("--out");
+    let outp2 = outp.clone();
+    let _ = CUR.set(format!("{outp2}.cur"));
     let mut w = BufWriter::new(std::fs::File::create(outp).unwrap());
     let seed = argn(&args, "--seed", 1);
     let insts = argn(&args, "--instances", 10) as usize;
@@ -332,6 +348,7 @@ fn main() {
         }
     }
     w.flush().unwrap();
+    let _ = std::fs::remove_file(format!("{outp2}.cur"));
     if sweep > 0 {
         eprintln!("SWEEP runs={} suspects={}", swept, suspects);
     }
